@@ -1,6 +1,7 @@
 package main
 
 import (
+	"fmt"
 	"go/token"
 	"go/types"
 	"strings"
@@ -18,6 +19,7 @@ func init() {
 			"R3 a fetch registers its dependency before it lists, on every path with a context (no event between list and registration can be missed)",
 			"R4 lock discipline: manyCollection's collectionState/dependencyState/indexes and staticList's vals/indexes are touched only under mu (lock-requiring helpers verified at every caller)",
 			"R5 state change and event distribution are atomic: every Distribute call of a mutex-protected collection is made while its mu is held (events are enqueued in the order of the state writes)",
+			"R7 in every function that builds the event batch it distributes, one pass of the loop that handles a key appends at most one event to that batch (no path appends twice in the same iteration): a second append is a duplicate add/delete for the subscribers",
 			"R6 a secondary (dependency) event is matched against both the old and the new object when deciding which inputs to recompute",
 		},
 		NotDecided: "event-stream consistency in general, output diffing, keys moving between parents, join/merge semantics (a duplicate delete in mergejoin was reported by a seeding agent and is noted in DESIGN.md as untriaged); R1 of the design (untracked reads inside transformations) is not armed",
@@ -27,6 +29,7 @@ func init() {
 			{"C16-R4", "krt lock discipline", c16r4},
 			{"C16-R5", "events are distributed under the state lock", c16r5},
 			{"C16-R6", "secondary events consider old and new object", c16r6},
+			{"C16-R7", "one output event per key and pass", c16r7},
 		},
 	})
 }
@@ -245,4 +248,188 @@ func c16r6(c *Ctx) {
 	walk(fn)
 	c.Check("changedInputKeys examines old and new objects of an event", fn.Pos(), items >= 1 && latest == 0, "the objects of a secondary event are taken from ev.Latest() only (calls: Items="+itoa(items)+", Latest="+itoa(latest)+"): when an update moves an object out of what an input fetched (index key, labels), that input is never recomputed and its output stays stale")
 	c.Floor(1)
+}
+
+
+// C16-R7: functions that build a batch `events` and hand it to Distribute handle one key per iteration of their
+// innermost loop. On no path through one iteration are two events appended to the batch: the subscribers would see a
+// duplicate (e.g. the same delete twice = a delete of an unknown key).
+func c16r7(c *Ctx) {
+	p := c.P
+	n := 0
+	chosen := map[*ssa.Function]bool{}
+	for _, fn := range p.AllFuncs {
+		if funcPkgPath(fn) != istioMod+"/"+pkgKrt || strings.HasSuffix(p.Fset.Position(fn.Pos()).Filename, "_test.go") {
+			continue
+		}
+		if fn.Synthetic != "" && !strings.HasPrefix(fn.Synthetic, "instance of") {
+			continue
+		}
+		// one instance per generic origin
+		if o := fn.Origin(); o != nil && o != fn {
+			if chosen[o] {
+				continue
+			}
+			chosen[o] = true
+		} else if fn.TypeParams().Len() > 0 || (fn.Signature.Recv() != nil && len(fn.TypeArgs()) == 0 && hasTypeParamRecv(fn)) {
+			continue // uninstantiated generic body: analysed through one instance
+		}
+		// batches handed to Distribute
+		var batches []ssa.Value
+		eachInstr(fn, func(ins ssa.Instruction) {
+			if o := calleeObj(ins); o != nil && o.Name() == "Distribute" {
+				ci := ins.(ssa.CallInstruction)
+				args := ci.Common().Args
+				for _, a := range args {
+					if _, isSlice := a.Type().Underlying().(*types.Slice); isSlice {
+						batches = append(batches, a)
+					}
+				}
+			}
+		})
+		if len(batches) == 0 {
+			continue
+		}
+		for _, batch := range batches {
+			// appends that feed the batch
+			var apps []*ssa.Call
+			eachInstr(fn, func(ins ssa.Instruction) {
+				if !isAppendCall(ins) {
+					return
+				}
+				call := ins.(*ssa.Call)
+				if feedsBatch(batch, call, 0, map[ssa.Value]bool{}) {
+					apps = append(apps, call)
+				}
+			})
+			for _, a := range apps {
+				// single-element appends only (append(events, e)); spreading another slice is a merge of batches
+				if !isSingleAppend(a) {
+					continue
+				}
+				// innermost loop containing a
+				var inner *ssa.BasicBlock
+				for _, h := range fn.Blocks {
+					if !strings.HasSuffix(h.Comment, ".loop") {
+						continue
+					}
+					m := loopMembers(fn, h)
+					if m[a.Block()] && (inner == nil || loopMembers(fn, inner)[h]) {
+						inner = h
+					}
+				}
+				if inner == nil {
+					continue
+				}
+				n++
+				var second ssa.Instruction
+				found := false
+				// search forward from a, not crossing the innermost loop's header
+				type cur struct {
+					b *ssa.BasicBlock
+					i int
+				}
+				seen := map[*ssa.BasicBlock]bool{}
+				st := []cur{{a.Block(), instrIndex(a) + 1}}
+				for len(st) > 0 && !found {
+					q := st[len(st)-1]
+					st = st[:len(st)-1]
+					for i := q.i; i < len(q.b.Instrs); i++ {
+						ins := q.b.Instrs[i]
+						if other, ok := ins.(*ssa.Call); ok && other != a && isAppendCall(ins) {
+							for _, b2 := range apps {
+								if b2 == other && isSingleAppend(other) {
+									second, found = ins, true
+								}
+							}
+						}
+						if found {
+							break
+						}
+					}
+					for _, sx := range q.b.Succs {
+						if sx == inner || seen[sx] || !loopMembers(fn, inner)[sx] {
+							continue
+						}
+						seen[sx] = true
+						st = append(st, cur{sx, 0})
+					}
+				}
+				pos := a.Pos()
+				det := ""
+				if found {
+					det = "after the event appended at " + p.pos(a.Pos()) + " the same pass of the loop can append another event to the batch at " + p.pos(second.Pos()) + ": subscribers receive two events for one change of one key (e.g. the same delete twice, i.e. a delete of a key they no longer know), and replaying the stream no longer reproduces List()"
+				}
+				c.Check("one event per pass: "+stableFnName(fn)+fmt.Sprintf(" (append #%d)", ordinalOf(apps, a)), pos, !found, det)
+			}
+		}
+	}
+	c.Check("event batches handed to Distribute found", token.NoPos, n >= 4, "fewer batch-building appends than confirmed by hand")
+	c.Floor(5)
+}
+
+func ordinalOf(apps []*ssa.Call, a *ssa.Call) int {
+	for i, x := range apps {
+		if x == a {
+			return i + 1
+		}
+	}
+	return 0
+}
+
+func hasTypeParamRecv(fn *ssa.Function) bool {
+	r := fn.Signature.Recv()
+	if r == nil {
+		return false
+	}
+	t := r.Type()
+	if pt, ok := t.(*types.Pointer); ok {
+		t = pt.Elem()
+	}
+	if nt, ok := t.(*types.Named); ok {
+		return nt.TypeParams().Len() > 0 && nt.TypeArgs().Len() == 0 || nt.Origin() == nt && nt.TypeParams().Len() > 0
+	}
+	return false
+}
+
+
+// isSingleAppend: append(s, e1[, e2...]) with explicit elements (go/ssa packs them into a "varargs" array), as opposed
+// to append(s, other...).
+func isSingleAppend(call *ssa.Call) bool {
+	if len(call.Call.Args) != 2 {
+		return false
+	}
+	sl, ok := call.Call.Args[1].(*ssa.Slice)
+	if !ok {
+		return false
+	}
+	a, ok := sl.X.(*ssa.Alloc)
+	return ok && a.Comment == "varargs"
+}
+
+
+// feedsBatch: the slice value `batch` is (through phis and further appends) built on top of the result of `src`.
+func feedsBatch(batch, src ssa.Value, depth int, seen map[ssa.Value]bool) bool {
+	if batch == src {
+		return true
+	}
+	if depth > 40 || seen[batch] {
+		return false
+	}
+	seen[batch] = true
+	switch x := batch.(type) {
+	case *ssa.Phi:
+		for _, e := range x.Edges {
+			if feedsBatch(e, src, depth+1, seen) {
+				return true
+			}
+		}
+	case *ssa.Call:
+		if isAppendCall(x) && len(x.Call.Args) > 0 {
+			return feedsBatch(x.Call.Args[0], src, depth+1, seen)
+		}
+	case *ssa.Slice:
+		return feedsBatch(x.X, src, depth+1, seen)
+	}
+	return false
 }
